@@ -2,6 +2,7 @@ package main
 
 import (
 	"fmt"
+	"go/ast"
 	"go/types"
 	"strings"
 
@@ -94,6 +95,7 @@ func (e *Engine) verifyFunc(bc *BoundContract) (res *FuncResult) {
 		fr.vars[pname] = a
 	}
 
+	cx.topVars = fr.vars
 	st := newState()
 	entry := st.clone()
 	pkg := e.typesPackage(bc.C.PkgPath)
@@ -138,6 +140,9 @@ func (e *Engine) verifyFunc(bc *BoundContract) (res *FuncResult) {
 			// exhaustiveness is itself an obligation
 			cx.newObligation("split", "exhaustive", sp.Text, fmt.Sprintf("%s:%d", sp.File, sp.Line), b.True(), b.Or(cases...), bc.C.Props)
 			cx.splits = append(cx.splits, cases)
+			if cx.pow2Hi == 0 {
+				cx.pow2Lo, cx.pow2Hi = lo, hi
+			}
 		}()
 	}
 	// cover: preconditions satisfiable
@@ -147,6 +152,7 @@ func (e *Engine) verifyFunc(bc *BoundContract) (res *FuncResult) {
 
 	cx.stack = append(cx.stack, fn)
 	results, exitSt, exitReach := fr.run(st, b.True())
+	cx.curBlk = nil
 	fr.st, fr.reach = exitSt, exitReach
 	fr.entry = entry
 
@@ -173,7 +179,11 @@ func (e *Engine) verifyFunc(bc *BoundContract) (res *FuncResult) {
 				rv[k] = v
 			}
 			bc.bindResults(rv, r.results)
-			renvs = append(renvs, retEnv{reach: r.reach, vars: rv, env: &SpecEnv{cx: cx, pkg: pkg, vars: rv, cur: r.st, old: entry}})
+			// ghost assignments of the contract happen at the return
+			for _, sc := range bc.C.Sets {
+				applyGhostSet(cx, &SpecEnv{cx: cx, pkg: pkg, vars: rv, cur: r.st, old: entry}, sc, r.st)
+			}
+			renvs = append(renvs, retEnv{reach: r.reach, vars: rv, env: &SpecEnv{cx: cx, pkg: pkg, vars: rv, cur: r.st, old: entry, rets: fr.lastRets, retNames: fr.lastRetNames, called: fr.lastCalled}})
 		}
 		for i, en := range bc.C.Ensures {
 			if en.Assumed {
@@ -193,6 +203,9 @@ func (e *Engine) verifyFunc(bc *BoundContract) (res *FuncResult) {
 				ob := cx.newObligation("ensures", clauseLabel(en, i), en.Text, fmt.Sprintf("%s:%d", en.File, en.Line), b.True(), b.And(cs...), clauseProps(en, bc.C.Props))
 				if len(cs) > 1 {
 					ob.parts = cs
+					for _, r := range fr.rets {
+						ob.partBlk = append(ob.partBlk, r.blk)
+					}
 				}
 			}
 		}
@@ -310,4 +323,48 @@ func shortName(s string) string {
 	s = strings.ReplaceAll(s, modulePath+"/", "")
 	s = strings.ReplaceAll(s, modulePath+".", "txfile.")
 	return s
+}
+
+// applyGhostSet performs "sets loc = expr" on st; only ghost fields and ghost variables may be assigned.
+func applyGhostSet(cx *Ctx, env *SpecEnv, sc *Clause, st *State) {
+	defer func() {
+		if r := recover(); r != nil {
+			cx.undecide("%s:%d: cannot bind `sets %s`: %v", sc.File, sc.Line, sc.Text, r)
+		}
+	}()
+	lhs := env.eval(sc.Exprs[0])
+	if lhs.loc == nil {
+		specFail("left side is not a location")
+	}
+	if !isGhostLoc(cx, sc.Exprs[0], env) {
+		specFail("only ghost fields and ghost variables can be set by a contract")
+	}
+	rhs := env.eval(sc.Exprs[1])
+	if rhs.isNil {
+		rhs = Val{t: cx.w.zero(lhs.typ), typ: lhs.typ}
+	}
+	rhs = env.coerce(rhs, lhs.typ)
+	cx.store(st, lhs.loc, lhs.typ, rhs.t)
+}
+
+func isGhostLoc(cx *Ctx, x astExpr, env *SpecEnv) bool {
+	switch n := x.(type) {
+	case *ast.Ident:
+		return cx.eng.ghostVar(n.Name) != nil
+	case *ast.SelectorExpr:
+		base := env.eval(n.X)
+		t := base.typ
+		if t == nil {
+			return false
+		}
+		if pt, ok := t.Underlying().(*types.Pointer); ok {
+			t = pt.Elem()
+		}
+		if !isStructType(t) {
+			return false
+		}
+		_, ok := cx.w.structInfo(t).ghostField(n.Sel.Name)
+		return ok
+	}
+	return false
 }
